@@ -331,6 +331,9 @@ def run_unit(gen_dir, index, specs, fname, prop, work, timeout=300, solver='cadi
                                    '-o', gb], 120)
     if rc != 0:
         res['detail'] = 'goto-cc failed: ' + (se or so)[-2000:]
+        if 'failed to find symbol' in (se or so) or 'undeclared' in (se or so):
+            # a contract names a variable the code no longer has: the code's shape changed
+            res['status'] = 'structure'
         return res
     cmd = ['goto-instrument', '--dfcc', 'bg_harness', '--enforce-contract', fname]
     for g in info['replaced']:
